@@ -77,8 +77,8 @@ fn check_view(
 }
 
 pub fn check(bytes: &[u8], _ctx: &Ctx) -> Verdict {
-    let mut s = Stream::new(bytes);
-    let built = gen_built(&mut s, &GenCfg::small());
+    let (mut s, mut gs) = crate::stream::split(bytes, 128);
+    let built = gen_built(&mut gs, &GenCfg::small());
     let game = match build_valid("C13", &built.tree) {
         Ok(g) => g,
         Err(v) => return v,
@@ -206,8 +206,8 @@ pub fn check(bytes: &[u8], _ctx: &Ctx) -> Verdict {
 }
 
 pub fn describe(bytes: &[u8]) -> Value {
-    let mut s = Stream::new(bytes);
-    let built = gen_built(&mut s, &GenCfg::small());
+    let (_, mut gs) = crate::stream::split(bytes, 128);
+    let built = gen_built(&mut gs, &GenCfg::small());
     json!({"family": built.family, "game": built.tree.brief(), "note": "profile source and operation sequence follow in the stream"})
 }
 
@@ -223,5 +223,6 @@ pub fn prop() -> Prop {
         assumptions: &["probabilities compared within 4 ulp; sums within 1e-9"],
         post: None,
         watchdog_s: 60,
+        shrink_iters: 3000,
     }
 }
